@@ -535,6 +535,10 @@ class Ctx:
                 first_disagreement=self.disagreements[0] if self.disagreements else None,
                 n_disagreements=len(self.disagreements))
             lines.append("VIOLATION property=%s replay=%s no-failing-input-found" % (self.pid, path))
+            if self.proof_problems:
+                lines.append("  proof problem: %s" % json.dumps(self.proof_problems[0], default=str)[:700])
+            if self.disagreements:
+                lines.append("  first disagreement: %s" % json.dumps(self.disagreements[0], default=str)[:1200])
             violations += 1
         self._write_evidence(violations)
         for ln in lines:
